@@ -10,7 +10,7 @@
  *   h_hsort_body  the REAL secp256k1_hsort / heap_down / heap_swap on count <= HS_MAX elements of stride 8 with
  *                 a total order: output sorted (adjacent pair at a ghost index) and a permutation of the
  *                 input (multiplicity of a ghost value preserved).  BOUNDED stand-in: count <= HS_MAX
- *                 (5 in the quick tier: 70 s; 6 in the thorough tier: cost grows ~8x per element).
+ *                 (5: 70-95 s; cost grows ~8x per element, HS_MAX=6 did not finish in 30 min).
  *   h_hsort_struct  EVERY count (symbolic, loop contracts on both loops of the real secp256k1_hsort, hook
  *                 hooks/C04_sort_combine_loops.diff), heap_down / heap_swap replaced by structural contracts: the
  *                 heap is built over all count elements and count-1 maxima are extracted, the heap shrinking by
